@@ -33,6 +33,7 @@ def _run(specs):
     """specs: list of (same_start: bool, len_index_line1, len_index_line2 or -1)"""
     r = SCCReader()
     lines = []
+    pre = []
     for k, (same, i1, i2) in enumerate(specs):
         p = PreCaption(1000000 if same else 3000000 + k * 1000000, 9000000)
         l1 = chr(97 + 2 * k) * _len(i1)
@@ -42,7 +43,16 @@ def _run(specs):
             l2 = chr(98 + 2 * k) * _len(i2)
             p.nodes += [CaptionNode.create_break(), CaptionNode.create_text(l2)]
             lines.append(l2)
-        r.caption_stash._collection.append(p)
+        pre.append(p)
+    done = []
+
+    def inject(*a):
+        # read() (re)initialises the decoding state first; the stash is filled when read() flushes the
+        # buffers after the (empty) body, i.e. right before the scan
+        if not done and r.caption_stash is not None:
+            done.append(1)
+            r.caption_stash._collection.extend(pre)
+    r._flush_implicit_buffers = inject
     too_long = [ln for ln in lines if len(ln) > 32]
     try:
         cs = r.read("Scenarist_SCC V1.0\n")
